@@ -274,6 +274,10 @@ def run(chk, repo):
                f"writes to self.pointers: {[unparse(w[2])[:60] for w in ws]}: pointers of transcripts known from earlier GVFs can be replaced "
                "(adding a file removes variants)", key=q + '::append-only', fn=g.qual)
 
+    # ------------------------------------------------------------------ f (shared with C06.a)
+    from rules.C06 import rule_drain
+    rule_drain(chk, repo, 'C05.f')
+
 
 def flag_polarity(e, flag):
     """truth polarity of e when the boolean flag goes False->True."""
